@@ -3,8 +3,10 @@ From Coq Require Import List ZArith Bool.
 From MX Require Import Exec.Model Exec.Spec Exec.Sim Exec.Cover Exec.Quiet Exec.Edits3 Exec.Edits4 Exec.Edits6 Exec.Results Exec.Top Exec.Rg Exec.Diff.
 Import ListNotations.
 
-(** For every model of the formula vocabulary whose formulas never handle the
-    failure of a callee ([defs_ok]: recorded finding D20) and read by name
+(** For every model of the formula vocabulary — formulas may handle the
+    failures of their callees: a value computed over a failure is returned but
+    not kept (finding D20, repaired in /repo 58f2802; the model's [s_taint]) —
+    whose formulas read by name
     only references visible in their space ([refn_ok], a static scoping
     condition), and every finite interleaving [ops] of evaluations with
     value assignments / overwrites, clear_at, clear, clear_all, formula
@@ -27,7 +29,7 @@ Import ListNotations.
     form of the property text is [C02_live_equals_edits_only] below. *)
 Theorem C02_answers_follow_current_definitions_partial :
   forall fuel cells refs maxd ops xs st,
-  defs_ok cells -> refn_ok (init cells refs maxd) -> ops_ok2 fuel (init cells refs maxd) ops ->
+  refn_ok (init cells refs maxd) -> ops_ok2 fuel (init cells refs maxd) ops ->
   run fuel (init cells refs maxd) ops = (xs, st) -> no_fuel_out xs -> s_reent st = false ->
   Quiet st /\
   (forall i v, lookup_data (s_data st) i = Some v ->
@@ -64,7 +66,7 @@ Print Assumptions C02_definitions_and_inputs_follow_the_edits.
 (** two histories whose edits coincide answer every request alike, whatever
     was evaluated, served from the cache, failed or recalculated in between *)
 Theorem C02_same_edits_same_answers : forall fuel cells refs maxd ops1 ops2 xs1 xs2 st1 st2,
-  defs_ok cells -> refn_ok (init cells refs maxd) ->
+  refn_ok (init cells refs maxd) ->
   edits ops1 = edits ops2 -> aops_ok (cells, refs) ops1 ->
   run fuel (init cells refs maxd) ops1 = (xs1, st1) -> no_fuel_out xs1 -> s_reent st1 = false ->
   run fuel (init cells refs maxd) ops2 = (xs2, st2) -> no_fuel_out xs2 -> s_reent st2 = false ->
@@ -78,7 +80,7 @@ Print Assumptions C02_same_edits_same_answers.
 (** every value the model returns equals the value returned by a model to
     which only the edits were applied, with no evaluation in between *)
 Theorem C02_live_equals_edits_only : forall fuel cells refs maxd ops xs xs' st st_e,
-  defs_ok cells -> refn_ok (init cells refs maxd) -> aops_ok (cells, refs) ops ->
+  refn_ok (init cells refs maxd) -> aops_ok (cells, refs) ops ->
   run fuel (init cells refs maxd) ops = (xs, st) -> no_fuel_out xs -> s_reent st = false ->
   run fuel (init cells refs maxd) (edits ops) = (xs', st_e) -> no_fuel_out xs' -> s_reent st_e = false ->
   forall i r r' st1 st2,
@@ -122,4 +124,22 @@ Example C02_differential_example :
   /\ fst (eval_top 200 (snd live) (0, [VInt 3])) = Val (VInt 10)
   /\ fst (eval_top 200 (snd repl) (0, [VInt 3])) = Val (VInt 10)
   /\ fst (eval_top 200 (snd live) (0, [VInt 4])) = fst (eval_top 200 (snd repl) (0, [VInt 4])).
+Proof. vm_compute. repeat split; reflexivity. Qed.
+
+(** a formula that handles the failure of a callee: its value is returned,
+    not kept; once the cause is edited away the new value is computed and
+    kept (finding D20, repaired) *)
+Definition ex2c_cells : list (cid * cell) :=
+  [ (0, mkCell [SAssign (EBin Add (ECall 1 [EPar 0]) (EConst (VInt 100)))] 1 [] true false 0);
+    (1, mkCell [STry (ECall 2 [EPar 0]) (EConst (VInt (-1)))] 1 [] true false 0);
+    (2, mkCell [SAssign (EBin FloorDiv (EConst (VInt 10)) (ECall 3 [EPar 0]))] 1 [] true false 0);
+    (3, mkCell [SAssign (EConst (VInt 1))] 1 [] true false 0) ].
+Example C02_caught_failure_example :
+  let r := run 200 (init ex2c_cells [] 50)
+             [OpSetValue (3, [VInt 1]) (VInt 0); OpEval (0, [VInt 1]); OpSetValue (3, [VInt 1]) (VInt 5); OpEval (0, [VInt 1])] in
+  fst r = [OOk; OVal (VInt 99); OOk; OVal (VInt 102)]
+  /\ map fst (s_data (snd (run 200 (init ex2c_cells [] 50) [OpSetValue (3, [VInt 1]) (VInt 0); OpEval (0, [VInt 1])])))
+     = [(3, [VInt 1])]
+  /\ map fst (s_data (snd r)) = [(3, [VInt 1]); (2, [VInt 1]); (1, [VInt 1]); (0, [VInt 1])]
+  /\ s_taint (snd r) = 0 /\ s_reent (snd r) = false.
 Proof. vm_compute. repeat split; reflexivity. Qed.
